@@ -160,6 +160,43 @@ theorem secondLayer_block (S : Nat → Sig → List Sig) (n : Nat) (ia : List Si
   · intro j hj; exact padCols_getElem n _ _ j hj (by omega)
   · intro j hj hk; exact padCols_zero n _ _ j hj hk
 
+/-- Composition with the classic sift of this model (the default `sift_func` of `sift_second_layer`):
+    with `S k col` = the `k`-capped classic sift of the column, for any extractor meeting the contract
+    `ExtractorOK`, the hypotheses of the two theorems above hold by themselves (`sift_cols_le_cap`, column
+    lengths of the sift): the second-layer array has the documented shape and block `i` is the second-layer
+    sift of first-layer column `i` followed by zero columns — nothing is ever cut off. -/
+theorem secondLayer_over_sift (X : Nat → Sig → Option (Sig × Bool)) (thr : Rat) (fuel n : Nat)
+    (hX : ExtractorOK X n) (ia : List Sig) (hia : ∀ c ∈ ia, c.length = n) (cap : Option Nat) (hc : cap ≠ some 0) :
+    (secondLayer (fun k col => (siftIx X thr (some k) col fuel).1) n ia cap).length = ia.length ∧
+    (∀ blk ∈ secondLayer (fun k col => (siftIx X thr (some k) col fuel).1) n ia cap,
+      blk.length = cap.getD ia.length ∧ ∀ c ∈ blk, c.length = n) ∧
+    ∀ (i : Nat) (col : Sig), ia[i]? = some col →
+      ∃ blk, (secondLayer (fun k col => (siftIx X thr (some k) col fuel).1) n ia cap)[i]? = some blk ∧
+        (∀ j : Nat, j < (siftIx X thr (some (cap.getD ia.length)) col fuel).1.length →
+          blk[j]? = (siftIx X thr (some (cap.getD ia.length)) col fuel).1[j]?) ∧
+        (∀ j : Nat, (siftIx X thr (some (cap.getD ia.length)) col fuel).1.length ≤ j → j < cap.getD ia.length →
+          blk[j]? = some (Sig.zeros n)) := by
+  refine ⟨by simp [secondLayer], ?_, ?_⟩
+  · intro blk hb
+    simp only [secondLayer, List.mem_map] at hb
+    obtain ⟨col, hcol, rfl⟩ := hb
+    refine ⟨padCols_length _ _ _, padCols_col_length n _ _ ?_⟩
+    have hn := hia col hcol
+    intro c hcm
+    rw [← hn]
+    exact siftLoop_lengths X thr _ col (hn ▸ hX) fuel [] col (resid_nil col).symm (by simp) c hcm
+  · intro i col hi
+    have hpos : 0 < cap.getD ia.length := by
+      cases cap with
+      | none =>
+        have : i < ia.length := by
+          apply Nat.lt_of_not_le; intro h; rw [List.getElem?_eq_none h] at hi; cases hi
+        simp; omega
+      | some k => cases k with
+        | zero => exact absurd rfl hc
+        | succ k => simp
+    exact secondLayer_block _ n ia cap i col hi (sift_cols_le_cap X thr col fuel _ hpos)
+
 /-! ### Non-vacuity -/
 
 /-- a table extractor that never clears the flag: layer k returns the constant column k+1 -/
